@@ -168,9 +168,10 @@ fn sig_tokens(text: &str) -> Option<Vec<(String, String)>> {
   )
 }
 
-/// Split a significant-token sequence into the import section (as a sorted multiset of
-/// per-import sorted token bags) and the rest.
-fn split_imports(toks: &[(String, String)]) -> (Vec<Vec<(String, String)>>, Vec<(String, String)>) {
+/// Split a significant-token sequence into the import section, as a sorted set of
+/// (module path, imported member) pairs (the printer sorts imports, merges imports of the same
+/// module and drops duplicates), and the rest.
+fn split_imports(toks: &[(String, String)]) -> (Vec<(String, String)>, Vec<(String, String)>) {
   let mut i = 0;
   let mut imports = Vec::new();
   while i < toks.len() && toks[i] == ("keyword".to_string(), "import".to_string()) {
@@ -181,12 +182,24 @@ fn split_imports(toks: &[(String, String)]) -> (Vec<Vec<(String, String)>>, Vec<
     {
       j += 1;
     }
-    let mut bag = toks[i..j].to_vec();
-    bag.sort();
-    imports.push(bag);
+    let body = &toks[i + 1..j];
+    let from = body.iter().position(|t| t.0 == "keyword" && t.1 == "from");
+    let (members, module) = match from {
+      Some(k) => (&body[..k], body[k + 1..].iter().map(|t| t.1.clone()).collect::<Vec<_>>().join("")),
+      None => (body, "<no from>".to_string()),
+    };
+    let mut any = false;
+    for m in members.iter().filter(|t| !(t.0 == "operator" && matches!(t.1.as_str(), "{" | "}"))) {
+      imports.push((module.clone(), format!("{}:{}", m.0, m.1)));
+      any = true;
+    }
+    if !any {
+      imports.push((module.clone(), "<none>".to_string()));
+    }
     i = j;
   }
   imports.sort();
+  imports.dedup();
   (imports, toks[i..].to_vec())
 }
 
@@ -969,7 +982,7 @@ fn ast_locs_job(job: &Value) -> Value {
             }
           }
         };
-        let (mut n_diag, mut n_def, mut n_refs, mut n_fold) = (0, 0, 0, 0);
+        let (mut n_diag, mut n_def, mut n_refs, mut n_fold, mut n_edits) = (0, 0, 0, 0, 0);
         for (nm, (m, text)) in &texts {
           for e in state.get_errors(m) {
             n_diag += 1;
@@ -980,6 +993,28 @@ fn ast_locs_job(job: &Value) -> Value {
             for r in &ide.reference_locs {
               if !inside(r) {
                 viol.push(json!({"what": "diagnostic reference location outside its document or inverted", "module": nm, "loc": loc4(r)}));
+              }
+            }
+            // edit ranges of the quick fixes offered at this diagnostic
+            match catch_unwind(AssertUnwindSafe(|| samlang_services::rewrite::code_actions(&state, e.location))) {
+              Err(p) => viol.push(json!({"what": "code_actions panicked", "module": nm, "loc": loc4(&e.location), "msg": panic_msg(p)})),
+              Ok(actions) => {
+                for a in actions {
+                  let samlang_services::rewrite::CodeAction::Quickfix { title: _, edits } = a;
+                  let mut sorted: Vec<Location> = edits.iter().map(|(l, _)| *l).collect();
+                  sorted.sort();
+                  for l in &sorted {
+                    n_edits += 1;
+                    if !inside(l) || l.module_reference != *m {
+                      viol.push(json!({"what": "edit range outside the document or inverted", "module": nm, "loc": loc4(l)}));
+                    }
+                  }
+                  for w in sorted.windows(2) {
+                    if !(w[0].end <= w[1].start) {
+                      viol.push(json!({"what": "edit ranges of one quick fix overlap", "module": nm, "loc": loc4(&w[0]), "other": loc4(&w[1])}));
+                    }
+                  }
+                }
               }
             }
           }
@@ -1045,7 +1080,7 @@ fn ast_locs_job(job: &Value) -> Value {
             }
           }
         }
-        services = json!({"diagnostics": n_diag, "definitions": n_def, "references": n_refs, "folding": n_fold});
+        services = json!({"diagnostics": n_diag, "definitions": n_def, "references": n_refs, "folding": n_fold, "edits": n_edits});
       }
     }
   }
